@@ -6,6 +6,7 @@ import ast
 from ..flow import enumerate_paths
 from ..source import norm
 from . import dg_rules as dg
+from . import core_folds as cf
 from .common import is_name, params, returns_of, single_return
 
 EXPLANATION = (
@@ -22,64 +23,16 @@ TRUSTED = ("CPython ast", "Python dict semantics", "model of Array truthiness/it
 
 
 def r1_delegation(run, tree):
-    run.rule("C20.R1", "dict delegation table", "sibling agreement", "Python dict API", floor=18)
-    dg.check_delegation(run, tree, dg.DG, "_container")
-    dg.check_delegation(run, tree, dg.DS, "groups")
+    run.rule("C20.R1", "dictionary protocol of Datagroup and Dataset over finite histories (set, delete, pop, get, update, clear, copy, "
+             "iteration, membership, len)", "D7 fold of both classes (ModelEval)", "Python dict API", floor=12)
+    cf.check_datagroup_histories(run, tree)
+    cf.check_dataset_histories(run, tree)
+    cf.check_group_copy(run, tree)
 
 
 def r2_gates(run, tree):
-    run.rule("C20.R2", "gates dominate stores; every stored item renamed / parented; single writers", "path rule", "", floor=8)
-    dg.check_setitem_gate(run, tree)
-    dg.check_single_writer(run, tree, dg.DG, "_container")
-    dg.check_insertion_via_setitem(run, tree, dg.DG, ["__init__", "update"])
-    # Dataset.__setitem__
-    ci = tree.cls(dg.DS)
-    fi = tree.method(ci, "__setitem__")
-    run.analysed(fi)
-    pn = params(fi)
-    SELF, KEY, VAL = pn
-    n_store = 0
-    for path in enumerate_paths(fi.node.body):
-        typed = False
-        stored = named = parented = False
-        for it in path:
-            if it[0] == "test":
-                t = it[1]
-                neg = False
-                while isinstance(t, ast.UnaryOp) and isinstance(t.op, ast.Not):
-                    neg = not neg
-                    t = t.operand
-                if isinstance(t, ast.Call) and is_name(t.func, "isinstance") and is_name(t.args[0], VAL):
-                    r = tree.resolve_expr(fi.module, t.args[1])
-                    if getattr(r, "qual", None) == dg.DG:
-                        if (it[2] and not neg) or (not it[2] and neg):
-                            typed = True
-            elif it[0] == "stmt":
-                st = it[1]
-                src = norm(st)
-                is_store = src in ("%s.groups.__setitem__(%s, %s)" % (SELF, KEY, VAL), "%s.groups[%s] = %s" % (SELF, KEY, VAL))
-                if is_store:
-                    stored = True
-                    n_store += 1
-                if src == "%s.name = %s" % (VAL, KEY):
-                    named = True
-                if src == "%s.parent = %s" % (VAL, SELF):
-                    parented = True
-                if (is_store or src.startswith("%s." % VAL) and isinstance(st, ast.Assign)) and not typed:
-                    run.violated(dg.DS + ".__setitem__::effect-before-type-gate", fi.where(st),
-                                 "`%s` executes although the value was not shown to be a Datagroup" % src[:60],
-                                 "ds['x'] = an Array: stored (or renamed) instead of raising TypeError")
-        if path[-1][1] != "raise" and stored:
-            run.ob(dg.DS + ".__setitem__::name-and-parent", named and parented, fi.where(),
-                   "accepted insertion sets name=%s parent=%s" % (named, parented),
-                   "ds['gas'] = group leaves group.name / group.parent stale (extract_* and layer lookups use them)")
-        if path[-1][1] != "raise" and not stored:
-            run.violated(dg.DS + ".__setitem__::no-store", fi.where(), "a non-raising path stores nothing", "ds['x'] = group")
-    raises = any(p[-1][1] == "raise" for p in enumerate_paths(fi.node.body))
-    run.ob(dg.DS + ".__setitem__::rejects-non-datagroup", raises and n_store > 0, fi.where(),
-           "non-Datagroup values %s" % ("raise" if raises else "are accepted"), "ds['x'] = 3")
-    dg.check_single_writer(run, tree, dg.DS, "groups", allowed_store=("__setitem__",), allowed_rebind=("__init__",))
-    dg.check_insertion_via_setitem(run, tree, dg.DS, ["__init__", "update"])
+    run.rule("C20.R2", "indexing/sorting keep members aligned and named", "D7 fold", "", floor=5)
+    cf.check_group_indexing(run, tree)
 
 
 def r3_equality(run, tree):
